@@ -437,7 +437,7 @@ static void gen_c11(plan_t *p, rng_t *r)
                   if (rng_chance(r, 1, 3)) plan_op(p, 0, "ctx", 2, (long)rng_range(r, 1, 12), 0L);
               }
               o = plan_op(p, 0, "parse", 1, (long)rng_below(r, 3)); op_str(o, "root.cfg", 8);
-              if (rng_chance(r, 1, 3)) { static const int lims[] = { 1, 2, 7, 255, 256, 4095, 4096 }; for (int f = 0; f < 4; f++) op_fault(o, FAULT(FC_READ, FO_SHORT, lims[rng_below(r, 7)])); }
+              if (rng_chance(r, 1, 3)) { static const int lims[] = { 1, 2, 7, 255, 256, 4095, 4096 }; for (int f = 0; f < 4; f++) op_fault(o, rng_chance(r, 1, 10) ? FAULT(FC_READ, FO_ETRANSIENT, 0) : FAULT(FC_READ, FO_SHORT, lims[rng_below(r, 7)])); }      /* (one read in ten of these fails once with EINTR and the stream works again) */
               if (rng_chance(r, 1, 8)) op_fault(o, FAULT(FC_OPEN, rng_chance(r, 1, 2) ? FO_ENOENT : FO_EMFILE, 0));
           } }
         if (rng_chance(r, 1, 3)) {
